@@ -276,4 +276,25 @@ theorem C07_live_instances_delete_witness :
     let s := CacheSync.run true (CacheSync.init true 2 2 false) [.write true, .delete, .write false]
     CacheSync.fresh s = true ∧ s.db = [0, 1, 2, 3] ∧ s.file.map (·.content) = some [0, 1, 3] := by decide
 
+/-- **Two unserialised writers: another writer's whole command inside `ProductStack.reload`.**  Instance 1 reads the
+user's up-to-date cache file while another process of the user changes the database and saves the file — before or
+after instance 1's read (`readLate`), in any case after instance 1 has noted the file's time, which is the order of the
+code.  Whatever follows (every interleaving of write-throughs, `ensureInSync` calls and other processes' commands, no
+deletion): a cache file that is not older than the database is complete. -/
+theorem C07_writer_inside_reload_safe (s : CacheSync.St) (h : CacheSync.Start s) (sysOk readLate : Bool)
+    (f : CacheSync.File) (hf : s.file = some f) (hfr : s.dbTime ≤ f.mtime) (evs : List CacheSync.Ev)
+    (hnd : ∀ e ∈ evs, e ≠ .delete) :
+    CacheSync.Safe (CacheSync.run true (CacheSync.loadGate true readLate (CacheSync.load true sysOk s false)) evs) :=
+  ((CacheSync.loadGate_inv h sysOk readLate f hf hfr).run evs hnd).safe
+
+/-- the order matters: a `reload` that notes the time AFTER unpickling holds the old content under the other writer's
+time; its next write-through is judged in sync and saved over the other writer's change (what `corpus/C07/
+race_writer_inside_reload.json` exhibits on such a tree) -/
+theorem C07_time_noted_after_read_witness :
+    let s0 : CacheSync.St := ⟨4, List.range 2, 2, some ⟨3, List.range 2⟩, ⟨none, []⟩, ⟨none, []⟩⟩
+    let bad := CacheSync.run true (CacheSync.loadGate false false (CacheSync.load true false s0 false)) [.write true]
+    let good := CacheSync.run true (CacheSync.loadGate true false (CacheSync.load true false s0 false)) [.write true]
+    (CacheSync.fresh bad = true ∧ bad.db = [0, 1, 2, 3] ∧ bad.file.map (·.content) = some [0, 1, 3]) ∧
+    (CacheSync.fresh good = true ∧ good.file.map (·.content) = some [0, 1, 2, 3]) := by decide
+
 end EupsModel.C07
